@@ -497,7 +497,10 @@ func TestVerifC02LazyMS(t *testing.T) {
 	}
 }
 
-var vfC02Stalled atomic.Bool
+var (
+	vfC02Stalled atomic.Bool
+	vfC02Stalls  atomic.Int64
+)
 
 // vfC02LazyReplay runs the walks (one in `share`) on streams from h1 to h2.
 func vfC02LazyReplay(res *vfh.Result, files []string, h1, h2 host.Host, label string, share, par, maxUnit int) error {
@@ -530,6 +533,11 @@ func vfC02LazyReplay(res *vfh.Result, files []string, h1, h2 host.Host, label st
 				}
 				if mk().run(20 * time.Second) {
 					res.Inc("lazyms_stalls", 1)
+					if vfC02Stalls.Add(1) > 3 && !vfC02Stalled.Swap(true) {
+						// stalls that do not reproduce are no verdict; more of them would only burn watchdog time
+						res.AddMismatch(vfh.Mismatch{Class: "MACHINERY", What: "lazyms: more than 3 walks stalled once without stalling again when repeated", Walk: j.w.Walk})
+						continue
+					}
 					r2 := mk()
 					if r2.run(40*time.Second) && !vfC02Stalled.Swap(true) {
 						r2.mismatch(len(j.w.Steps), "lazyms-stall", "bytes handed to Write did not reach the reader (the walk stalled twice)", "delivery", "stall")
